@@ -22,6 +22,7 @@ type IfaceV struct {
 	Ty, V  T
 	Boxed  Val
 	BoxedT types.Type
+	StaticI types.Type // static interface type this value was last seen at (narrows what "x.*" can be)
 }
 
 type ptrKind int
